@@ -72,6 +72,12 @@ def canon_op(aliases, op):
         return ['replace', [[chain_end(aliases, k), v] for k, v in op[1]]]
     if t == 'query' and isinstance(op[1], list):
         return ['query', [op[1][0], chain_end(aliases, op[1][1])]]
+    if t == 'fork':
+        return ['fork', op[1], canon_op(aliases, op[2])]
+    if t == 'sib':
+        return ['sib', canon_op(aliases, op[1])]
+    if t == 'getattr':
+        return ['getattr', chain_end(aliases, op[1])]
     return op            # add_variable / add_attribute take the name literally; the other hooks take no name
 
 
@@ -179,6 +185,12 @@ def through_aliases(rng, aliases, op):
         op[1] = kvs
     elif t == 'query' and isinstance(op[1], list):
         op[1][1] = rename(rng, aliases, op[1][1], p=0.8)
+    elif t == 'fork':
+        op[2] = through_aliases(rng, aliases, op[2])
+    elif t == 'sib':
+        op[1] = through_aliases(rng, aliases, op[1])
+    elif t == 'getattr':
+        op[1] = rename(rng, aliases, op[1], p=0.9)          # an alias is read by attribute BEFORE what follows
     return op
 
 
@@ -230,6 +242,11 @@ def rand_case(rng, max_ops):
                 k[1] = nm if rng.random() < 0.9 else k[1]
             reads.append(['g', k])
     case['reads'] = reads
+    # class hierarchy: the class under test is a subclass extending its parent's ALIASES, or the parent of such a subclass; the
+    # other class is instantiated before or after it
+    case['family'] = None
+    if aliases and not cyclic(aliases) and rng.random() < 0.3:
+        case['family'] = {'role': rng.choice(['sub', 'parent']), 'split': rng.randint(0, len(aliases)), 'other_first': rng.random() < 0.5}
     # a final solve of  lhs[t] = 2 * rhs[t] + 1  written through aliases (float models only)
     case['solve'] = None
     if kind == 'model' and case['dreq'] == 'f' and len(names) >= 2 and n > 0 and rng.random() < 0.6:
@@ -241,7 +258,7 @@ def rand_case(rng, max_ops):
 def fixed_cases():
     li = lambda *xs: ['L', [S(['i', x]) for x in xs]]      # noqa: E731
     base = {'kind': 'model', 'span': [10, 11, 12], 'strict': False, 'names': ['X', 'Y', 'Z'], 'dreq': 'f', 'default': S(['f', 0]),
-            'extra': 0, 'ivs': [], 'preferred': [], 'reads': [], 'solve': None, 'ops': []}
+            'extra': 0, 'ivs': [], 'preferred': [], 'reads': [], 'solve': None, 'family': None, 'ops': []}
     out = []
 
     def mk(**kw):
@@ -256,6 +273,15 @@ def fixed_cases():
     mk(aliases=chain3, preferred=['A', 'y'], ops=ops, ivs=[['B', li(1, 2, 3)], ['Z', S(['i', 7])], ['X', li(4, 5, 6)]],
        reads=[['g', ['n', 'A']], ['g', ['l', 'B', 11]], ['g', ['sl', 'C', 10, 11, None]], ['a', 'D'], ['a', 'y']], solve=['A', 'y'])
     mk(aliases=chain3, preferred=[], ops=ops, reads=[['g', ['n', 'B']]])
+    # class hierarchies (the parent / the subclass is instantiated first), an alias read by attribute before copy()/reindex()
+    cross = [['getattr', 'A'], ['getattr', 'y'], ['become', 'copy'], ['setattr', 'A', li(5, 6, 7)], ['getattr', 'B'], ['setitem', ['l', 'D', 11], S(['i', 1])],
+             ['getattr', 'D'], ['become', 'reindex'], ['setitem', ['sl', 'C', 10, 11, None], li(8, 9)], ['getattr', 'A'], ['sib', ['setattr', 'B', li(0, 0, 0)]],
+             ['fork', 'deepcopy', ['setattr', 'y', S(['i', 4])]], ['getattr', 'y'], ['query', 'completions'], ['setattr', 'D', S(['i', 2])]]
+    for role in ('sub', 'parent'):
+        for first in (True, False):
+            for split in (0, 2, 5):
+                mk(aliases=chain3, preferred=['A', 'y'], ops=cross, family={'role': role, 'split': split, 'other_first': first},
+                   reads=[['g', ['n', 'A']], ['a', 'D'], ['a', 'y']], solve=['A', 'y'])
     mk(aliases=[['A', 'X']], ops=[['query', ['contains', 'A']]])                               # kept finding: `in` is not wrapped
     mk(aliases=[['B', 'C'], ['A', 'B'], ['C', 'D'], ['D', 'X']], preferred=['C'], ops=ops[:3], reads=[['g', ['l', 'A', 10]]])   # chain of 4, dict order scrambled
     chain6 = [['a%d' % i, 'a%d' % (i + 1)] for i in range(1, 6)] + [['a6', 'X']]
@@ -328,16 +354,52 @@ def _build(case, aliased):
     import fsic
     try:
         cls = cc.make_class(kind, c['names'], c.get('aliases'), c.get('preferred'), evaluate=ev)
+        other = None
+        fam = case.get('family')
+        if aliased and fam:
+            from fsic.extensions import AliasMixin
+            base = {'model': fsic.BaseModel, 'linker': fsic.BaseLinker}[kind]
+            ns = {'NAMES': list(c['names']), 'ENDOGENOUS': [], 'EXOGENOUS': list(c['names']), 'CHECK': []}
+            if ev is not None:
+                ns['_evaluate'] = ev
+            k = fam['split']
+            if fam['role'] == 'sub':
+                parent = type('P', (AliasMixin, base), dict(ns, ALIASES=dict(al[:k]), PREFERRED_NAMES=[]))
+                cls = type('Q', (parent,), {'ALIASES': {**parent.ALIASES, **dict(al[k:])}, 'PREFERRED_NAMES': list(c.get('preferred') or [])})
+                other = parent
+            else:
+                cls = type('P', (AliasMixin, base), dict(ns, ALIASES=dict(al), PREFERRED_NAMES=list(c.get('preferred') or [])))
+                first = c['names'][0] if c['names'] else 'X'
+                other = type('Q', (cls,), {'ALIASES': {**cls.ALIASES, 'zz1': first, 'zz2': 'zz1'}, 'PREFERRED_NAMES': []})
+
+        def make_other():
+            if other is None:
+                return
+            try:
+                if kind == 'model':
+                    other(list(c['span']))
+                else:
+                    other(None, span=list(c['span']))
+            except _Hang:
+                raise
+            except Exception:          # noqa: BLE001 - the other class of the family is only a bystander
+                pass
+        if fam and aliased and fam['other_first']:
+            make_other()
         if ev is not None:
             cls.ENDOGENOUS = [chain_end(al, case['solve'][0])]
             cls.CHECK = [chain_end(al, case['solve'][0])]
         kw = {k: cc.py_of_operand(v) for k, v in c['ivs']}
         if kind == 'model':
-            return cls(list(c['span']), strict=c['strict'], dtype=cc.py_dreq(c['dreq']), default_value=cc.py_of_operand(c['default']), **kw), 'ok'
-        if c.get('extra', 0):
+            obj = cls(list(c['span']), strict=c['strict'], dtype=cc.py_dreq(c['dreq']), default_value=cc.py_of_operand(c['default']), **kw)
+        elif c.get('extra', 0):
             sub_cls = type('Sub', (fsic.BaseModel,), {'NAMES': ['P', 'Q'], 'ENDOGENOUS': [], 'EXOGENOUS': ['P', 'Q'], 'CHECK': []})
-            return cls({'A': sub_cls(list(c['span']))}, dtype=cc.py_dreq(c['dreq']), default_value=cc.py_of_operand(c['default']), **kw), 'ok'
-        return cls(None, span=list(c['span']), dtype=cc.py_dreq(c['dreq']), default_value=cc.py_of_operand(c['default']), **kw), 'ok'
+            obj = cls({'A': sub_cls(list(c['span']))}, dtype=cc.py_dreq(c['dreq']), default_value=cc.py_of_operand(c['default']), **kw)
+        else:
+            obj = cls(None, span=list(c['span']), dtype=cc.py_dreq(c['dreq']), default_value=cc.py_of_operand(c['default']), **kw)
+        if fam and aliased and not fam['other_first']:
+            make_other()
+        return obj, 'ok'
     except _Hang:
         raise
     except BaseException as e:             # noqa: BLE001 - the class is the observation
@@ -410,7 +472,18 @@ def impl(case):
     declared = list(case['names'])
     res['st0'] = cc.observe(a_obj, declared)
     res['twin_diff0'] = cc.diff_state(res['st0'], cc.observe(t_obj, declared))
+    a_sib = t_sib = None
     for op in case['ops']:
+        if op[0] in cc.CROSS_OPS:
+            a_obj, a_sib, ia = cc.cross_step(a_obj, a_sib, op, case['span'])
+            t_obj, t_sib, it = cc.cross_step(t_obj, t_sib, canon_op(al, op), case['span'], apply=apply_twin)
+            st = cc.observe(a_obj, declared)
+            step = {'out': 'ok', 'st': st, 'hint': None, 'twin_out': 'ok', 'twin_diff': cc.diff_state(st, cc.observe(t_obj, declared)),
+                    'aux': ia, 'twin_aux': it, 'aliases_kept': dict(a_obj.__dict__.get('aliases') or {}) == dict(res['aliases'])}
+            if a_sib is not None and t_sib is not None and op[0] != 'getattr':
+                step['sib_diff'] = cc.diff_state(cc.observe(a_sib), cc.observe(t_sib))
+            res['steps'].append(step)
+            continue
         hint = None
         if op[0] == 'setattr':
             hint = cc.closest_hint(a_obj, a_obj.__dict__.get('aliases', {}).get(op[1], op[1]))
@@ -591,8 +664,8 @@ def guard(case, obs):
     """Inside the class of the kept finding (an alias named like a variable) the values setter re-enters the alias-resolving
     __setattr__ with the shadowed VARIABLE name; the model mirrors the shadowing for item / attribute access and for the export,
     not for that re-entry: K is silent for such histories, the oracle speaks. Elsewhere K is compared (C09's own guard apart)."""
-    if shadowed(case) and any(op[0] in ('setattr', 'addattr') and op[1] == 'values' for op in case['ops']):
-        return True
+    if shadowed(case) and any((op[0] in ('setattr', 'addattr') and op[1] == 'values') or op[0] in cc.CROSS_OPS for op in case['ops']):
+        return True          # (reindex() too walks `index` through the alias-resolving __getitem__)
     return c09.guard(case, obs)
 
 
@@ -659,6 +732,16 @@ def _oracle(case, obs):
         if stp['twin_diff']:
             bad('%s|differs-from-twin' % op[0], 'op %d %s through %s: state differs from the twin: %s' % (i, op[0], c09._target_names(op), stp['twin_diff'][:200]))
             break
+        if op[0] in cc.CROSS_OPS:
+            ia, it = stp.get('aux', {}), stp.get('twin_aux', {})
+            if op[0] == 'getattr' and (op[1] in stp['st']['adict'] or chain_end(al, op[1]) in stp['st']['adict']):
+                ia = it = {}                # a plain attribute of that name exists as well: not a read of a variable
+            if ia != it:
+                bad('cross-instance|differs-from-twin', 'op %d %s: %s, on the twin %s' % (i, json.dumps(op)[:100], str(ia)[:100], str(it)[:100]))
+            elif stp.get('sib_diff'):
+                bad('cross-instance|differs-from-twin', 'op %d %s: the other instance differs from the twin\'s: %s' % (i, json.dumps(op)[:100], stp['sib_diff'][:160]))
+            elif not stp.get('aliases_kept', True):
+                bad('cross-instance|aliases-lost', 'op %d %s: the object no longer carries its aliases' % (i, json.dumps(op)[:100]))
         if op[0] == 'query':
             # read-only hooks: the state was compared with the twin above (the twin's hook certainly changes nothing of ITS aliases);
             # what they return: the twin's answer, plus the alias names where names are listed
@@ -796,6 +879,10 @@ def shrink_candidates(case):
     if case.get('solve'):
         c = copy.deepcopy(case)
         c['solve'] = None
+        yield c
+    if case.get('family'):
+        c = copy.deepcopy(case)
+        c['family'] = None
         yield c
     for i in range(len(case['aliases'])):
         c = copy.deepcopy(case)
